@@ -215,11 +215,15 @@ def parse_kani(out):
     return results, compile_error
 
 
-def run_kani(crate, harnesses, jobs, timeout_s, harness_timeout=None):
+def run_kani(crate, harnesses, jobs, timeout_s, harness_timeout=None, z3=False):
     fulls = [h['full'] for h in harnesses]
     extra = []
     if harness_timeout:
         extra += ['-Z', 'unstable-options', '--harness-timeout', harness_timeout]
+    if z3:
+        # SMT back end (CBMC --z3): used for harnesses whose SAT encoding needs two divider circuits proved equal.
+        # --cbmc-args swallows everything after it, so it goes last.
+        extra += ['-Z', 'unstable-options', '--cbmc-args', '--z3']
     cmd = kani_cmd(crate, fulls, jobs, extra)
     t0 = time.time()
     try:
@@ -241,7 +245,10 @@ def run_kani(crate, harnesses, jobs, timeout_s, harness_timeout=None):
 
 def kani_playback_print(h):
     """re-run one failed harness with concrete playback; returns (kani_output, [test_src])"""
-    cmd = kani_cmd(h['crate'], [h['full']], 1, ['-Z', 'concrete-playback', '--concrete-playback=print'])
+    extra = ['-Z', 'concrete-playback', '--concrete-playback=print']
+    if 'z3' in h.get('flags', []):
+        extra += ['-Z', 'unstable-options', '--cbmc-args', '--z3']
+    cmd = kani_cmd(h['crate'], [h['full']], 1, extra)
     try:
         p = subprocess.run(cmd, cwd=REPO, env=ENV, stdout=subprocess.PIPE, stderr=subprocess.STDOUT, text=True, timeout=1800)
         out = p.stdout
@@ -309,13 +316,13 @@ def run_property(prop, tier, only, jobs):
         # ----- Kani
         by_crate = {}
         for h in harnesses:
-            by_crate.setdefault(h['crate'], []).append(h)
+            by_crate.setdefault((h['crate'], 'z3' in h['flags']), []).append(h)
         kres = {}
         cmds = []
         kani_wall = 0.0
-        for crate, hs in by_crate.items():
+        for (crate, z3), hs in by_crate.items():
             timeout = 3600 if tier == 'thorough' else 1500
-            res, wall, cmd, logp = run_kani(crate, hs, jobs, timeout, harness_timeout=('30m' if tier == 'thorough' else '10m'))
+            res, wall, cmd, logp = run_kani(crate, hs, jobs, timeout, harness_timeout=('30m' if tier == 'thorough' else '10m'), z3=z3)
             kani_wall += wall
             cmds.append(cmd if len(cmd) < 400 else cmd[:400] + ' ...')
             for h in hs:
@@ -334,7 +341,7 @@ def run_property(prop, tier, only, jobs):
     # Kani classification
     for h in harnesses:
         r = kres[h['name']]
-        rec = dict(obligation=h['name'], engine='kani/cbmc+cadical', harness=h['full'], status=r['status'], checks=r['checks'],
+        rec = dict(obligation=h['name'], engine=('kani/cbmc+z3' if 'z3' in h['flags'] else 'kani/cbmc+cadical'), harness=h['full'], status=r['status'], checks=r['checks'],
                    covers=r['covers'], time_s=r['time'], bounded=h['bounded'], failed_checks=r['failed_checks'])
         records.append(rec)
         cov_ok = r['covers'] is not None and r['covers'][0] == r['covers'][1] and r['covers'][1] > 0
